@@ -60,7 +60,7 @@ func init() {
 		QuickTimeoutS: 400, ThoroughTimeoutS: 3000, GoMaxProcs: []int{2, 4, 16}, Parallel: 16,
 		Level: "exploration", DesignRef: "DESIGN.md section 4, C07",
 		Technique: "runtime monitoring against a reference model of registration policies (exhaustive short histories + sampled longer ones), plus concurrent overwrite-vs-Send histories with versioned marker nodes checked for exactly-one-version delivery and linearizability (porcupine)",
-		LevelText: "Exploration by execution: every history of up to 4 (quick) / 5 (thorough) calls over {RegisterNode f x 4 policies (allow, deny, default, invalid), RegisterPipeline t0/p0 with two node lists x 4 policies, re-registration of m and k, a second type's pipeline, RemoveNode, RemovePipeline, RemovePipelineAndNodes}, with and without a prologue, is run next to a reference model; every return value must match and after every step a Send per type must be processed by exactly the node objects the surviving registrations captured (object identity). Concurrent part: one goroutine overwrites (t,p) v1..vn while senders run; per Send exactly one version's marker may fire and the register history must be linearizable.",
+		LevelText: "Exploration by execution: every history of up to 4 (quick) / 5 (thorough) calls over {RegisterNode f x 4 policies (allow, deny, default, invalid), RegisterPipeline t0/p0 with two node lists x 4 policies, re-registration of m and k, a second type's pipeline, RemoveNode, RemovePipeline, RemovePipelineAndNodes}, with and without a prologue, is run next to a reference model; every return value must match and after every step a Send per type must be processed by exactly the node objects the surviving registrations captured (object identity). Concurrent part: one goroutine overwrites (t,p) v1..vn while senders run; per Send exactly one version's marker may fire and the register history must be linearizable. The extended alphabet adds RegisterNode calls that offer the very object already registered under the id (exhaustive to depth 3 for histories that use one, and in all sampled histories).",
 		LevelNote: "Trusted: reference model, recording nodes, porcupine v1.3.0. Schedules of the concurrent part are sampled (phase-aligned start, GOMAXPROCS 2/4/16).",
 		Rule:      "sequential: exhaustive enumeration of policy histories to depth D, PRNG-sampled histories of depth D+1..10; concurrent: seeded overwrite/sender programs. Non-trivial: every history; distinct = distinct (call sequence, trajectory of results).",
 	})
@@ -81,7 +81,7 @@ func init() {
 		QuickTimeoutS: 400, ThoroughTimeoutS: 3000, GoMaxProcs: []int{2, 4, 16}, Parallel: 6,
 		Level: "exploration", DesignRef: "DESIGN.md section 4, C04",
 		Technique: "Go race detector over phase-aligned concurrent workloads + offline linearizability checking (porcupine v1.3.0) of recorded call/return histories against per-key sequential models, with versioned marker nodes identifying which registration a Send observed",
-		LevelText: "Exploration by execution under the race detector: many short concurrent histories (2..8 actor goroutines x 30..120 random Broker calls over 2 types / 3 pipeline ids / 4 shared node ids with allow/deny/default policies, plus 1..4 senders, barrier start, GOMAXPROCS 2/4/16) are recorded at the API boundary with a logical clock. Every registered pipeline version is rooted at its own marker node, so per Send the set of versions that saw it is known. Oracles: zero library-attributed race reports, no panic/fatal error; per (type,pipeline id) the sub-history {Register, Remove, RemoveAndNodes, Send-read} must be linearizable w.r.t. a register model with the deny policy (exactly-once after registration returned, never after removal returned, 0/1 while overlapping, never two versions); node-id registers (nondeterministic model for RemovePipelineAndNodes side effects) and threshold registers likewise; a sequential epilogue after quiescence is part of the same history; no node object is closed twice.",
+		LevelText: "Exploration by execution under the race detector: many short concurrent histories (2..8 actor goroutines x 30..120 random Broker calls over 2 types / 3 pipeline ids / 4 shared node ids with allow/deny/default policies, plus 1..4 senders, barrier start, GOMAXPROCS 2/4/16) are recorded at the API boundary with a logical clock. Every registered pipeline version is rooted at its own marker node, so per Send the set of versions that saw it is known. Oracles: zero library-attributed race reports, no panic/fatal error; per (type,pipeline id) the sub-history {Register, Remove, RemoveAndNodes, Send-read} must be linearizable w.r.t. a register model with the deny policy (exactly-once after registration returned, never after removal returned, 0/1 while overlapping, never two versions); node-id registers (nondeterministic model for RemovePipelineAndNodes side effects) and threshold registers likewise; a sequential epilogue after quiescence is part of the same history; no node object is closed twice. One registration in six inside the concurrent histories is malformed (no formatter before the sink, or no sink) and must fail; like every failed call it takes no effect in the model, so a Send that is seen by its marker node, or that misses the version it tried to replace, makes the key's history non-linearizable. Marker nodes yield inside Type() 0..3 times (slow node code while a registration is being validated).",
 		LevelNote: "Trusted: race detector, porcupine, marker nodes, logical clock (atomic counter; call stamped before, return after). Send is deliberately not modelled as one atomic multi-key read (the property promises per-pipeline atomicity). Interleavings are sampled, not enumerated.",
 		Rule:      "seeded concurrent programs; each history is non-trivial (>=2 actors + >=1 sender); distinct = distinct (configuration, #recorded calls, #successful registrations). Coverage also lists the API entry points that ran concurrently and porcupine verdict counts.",
 	})
